@@ -99,8 +99,8 @@ def bodyProg (side : Side) (sqrt : K → K) : Prog K (S K) := seqs [
           (fun e => (e.rho1 * e.alpha) / (e.rho2 * e.omega)) (R vP)),
         halfProg side sqrt]))]
 
-/-- bicgstab.hpp:178-246 after the prologue -/
-def mainProg (prm : Solver.BiCGStab.Params K) (sqrt : K → K) : Prog K (S K) := seqs [
+/-- bicgstab.hpp:178-193: the statements between the prologue and the loop -/
+def preProg (prm : Solver.BiCGStab.Params K) (sqrt : K → K) : Prog K (S K) := seqs [
   (match prm.pside with
    | .left  => seqs [.prim (.residual (R vF) (R vX) (R vRh)),                -- residual(rhs, A, x, *rh)
                      .prim (.precond (R vRh) (R vR))]                        -- P.apply(*rh, *r)
@@ -109,15 +109,23 @@ def mainProg (prm : Solver.BiCGStab.Params K) (sqrt : K → K) : Prog K (S K) :=
   .prim (.sset (fun e => { e with epsT := Solver.maxK (e.nrhs * prm.tol) prm.abstol })),   -- eps = max(norm_rhs * tol, abstol)
   (if prm.checkAfter then .prim (.sset (fun e => { e with res := Solver.two * e.epsT }))   -- res = check_after ? 2 * eps
    else resNorm sqrt vR),                                                    --                   : norm(*r)
-  .prim (.sset (fun e => { e with rho1 := 0, rho2 := 0, alpha := 0, omega := 0, iter := 0, first := true })),
-  .loop prm.maxiter (fun e => e.err.isNone && decide (e.epsT < e.res))       -- for(first = true; res > eps && iter < maxiter; ++iter)
-    (bodyProg prm.pside sqrt),
+  .prim (.sset (fun e => { e with rho1 := 0, rho2 := 0, alpha := 0, omega := 0, iter := 0, first := true }))]
+
+/-- bicgstab.hpp:242-246: the statements after the loop (not reached when a `precondition` threw) -/
+def postProg (prm : Solver.BiCGStab.Params K) (sqrt : K → K) : Prog K (S K) :=
   .ite (fun e => e.err.isNone)
     (seqs [
       (if prm.checkAfter then .ite (fun e => e.iter == 0) (resNorm sqrt vR) .skip    -- if (check_after && iter == 0) res = norm(*r)
        else .skip),
       .prim (.sset (fun e => { e with out := e.res / e.nrhs }))])            -- return (iter, res / norm_rhs)
-    .skip]
+    .skip
+
+/-- bicgstab.hpp:178-246 after the prologue -/
+def mainProg (prm : Solver.BiCGStab.Params K) (sqrt : K → K) : Prog K (S K) := seqs [
+  preProg prm sqrt,
+  .loop prm.maxiter (fun e => e.err.isNone && decide (e.epsT < e.res))       -- for(first = true; res > eps && iter < maxiter; ++iter)
+    (bodyProg prm.pside sqrt),
+  postProg prm sqrt]
 
 /-- the whole `operator()` -/
 def prog (prm : Solver.BiCGStab.Params K) (sqrt : K → K) (eps : K) : Prog K (S K) :=
